@@ -88,7 +88,7 @@ class World:
             return out, res, arg
         if kind in ("replace", "extend"):
             h = op["h"]
-            step = ["replace", op["opts"]] if kind == "replace" else ["extend", op["recipe"]]
+            step = ["replace", op["opts"]] if kind == "replace" else ["extend", op["recipe"], op.get("as", "list")]
             base = self.hdesc[h]["base"]
             out, new = outcome(pools.apply_step, self.handles[h], base, step)
             if out[0] != "ok":
